@@ -1157,7 +1157,14 @@ func (ex *Explorer) Run() {
 				}
 			default:
 				if call, ok := in.(*ssa.Call); ok && ex.Inline != nil {
-					if callee := call.Call.StaticCallee(); callee != nil && !call.Call.IsInvoke() && ex.canInline(cur, callee) && ex.Inline(ex.curFn(cur), callee) {
+					callee := call.Call.StaticCallee()
+					if callee == nil && !call.Call.IsInvoke() && len(cur.frames) > 0 {
+						// a function-typed parameter of an inlined helper, bound to a named function at the call site
+						if f, ok := ex.Resolve(cur, call.Call.Value).(*ssa.Function); ok {
+							callee = f
+						}
+					}
+					if callee != nil && !call.Call.IsInvoke() && ex.canInline(cur, callee) && ex.Inline(ex.curFn(cur), callee) {
 						if os.Getenv("CDLINT_DEBUG_INLINE") != "" {
 							fmt.Fprintf(os.Stderr, "inline %s into %s\n", callee.Name(), ex.curFn(cur).Name())
 						}
@@ -1666,8 +1673,34 @@ var helperAnchors = map[string]bool{
 	"makeSleepHandler4": true, "makeSleepHandler6": true,
 }
 
+// anchorPkg: the package (path suffix) in which a helper name is an anchor; a
+// function of the same name elsewhere is an ordinary helper.
+var anchorPkg = map[string]string{
+	"toIndex": "allocators/bitmap", "toOffset": "allocators/bitmap", "toPrefix": "allocators/bitmap", "toIP": "allocators/bitmap",
+	"Offset": "plugins/allocators", "AddPrefixes": "plugins/allocators",
+	"recordKey": "plugins/prefix", "samePrefix": "plugins/prefix", "addPrefix": "plugins/prefix", "dup": "plugins/prefix",
+	"splitHostPort": "config", "protoVersionCheck": "config", "getListenAddress": "config", "expandLLMulticast": "config",
+	"defaultListen": "config", "getPlugins": "config", "parsePlugins": "config", "parseListen": "config", "parseConfig": "config",
+	"Load": "config", "New": "config", "ConfigErrorFromString": "config", "ConfigErrorFromError": "config",
+	"parseHWAddr": "plugins/range", "loadRecords": "plugins/range", "saveIPAddress": "plugins/range", "registerBackingDB": "plugins/range", "loadDB": "plugins/range",
+	"loadFromFile": "plugins/file", "LoadDHCPv4Records": "plugins/file", "LoadDHCPv6Records": "plugins/file", "setupFile": "plugins/file", "recordCount": "plugins/file",
+	"sendEthernet": "server", "LoadPlugins": "plugins", "RegisterPlugin": "plugins", "GetLogger": "logger",
+	"NewBitmapAllocator": "allocators/bitmap", "NewIPv4Allocator": "allocators/bitmap", "checkValidNetmask": "plugins/netmask",
+	"listen4": "server", "listen6": "server", "Start": "server", "Serve": "server", "HandleMsg4": "server", "HandleMsg6": "server",
+}
+
+func isHelperAnchor(fn *ssa.Function) bool {
+	if !helperAnchors[fn.Name()] {
+		return false
+	}
+	if p, ok := anchorPkg[fn.Name()]; ok {
+		return strings.HasSuffix(fnPkgPath(fn), p)
+	}
+	return true
+}
+
 func defaultInline(caller, callee *ssa.Function) bool {
-	if !FirstParty(callee) || helperAnchors[callee.Name()] || callee.Synthetic != "" {
+	if !FirstParty(callee) || isHelperAnchor(callee) || callee.Synthetic != "" {
 		return false
 	}
 	// setup functions and handlers are entry points, never helpers
